@@ -1,7 +1,7 @@
 import PonyVerif.Model.Aggr
 namespace PonyVerif.Model.Aggr
 
-theorem mem_dedup (l : List Int) (x : Int) : x ∈ dedup l ↔ x ∈ l := by
+theorem mem_dedup [DecidableEq α] (l : List α) (x : α) : x ∈ dedup l ↔ x ∈ l := by
   induction l with
   | nil => simp [dedup]
   | cons y ys ih =>
@@ -16,7 +16,7 @@ theorem mem_dedup (l : List Int) (x : Int) : x ∈ dedup l ↔ x ∈ l := by
         · exact ih.mpr h'
     · simp [ih]
 
-theorem nodup_dedup (l : List Int) : (dedup l).Nodup := by
+theorem nodup_dedup [DecidableEq α] (l : List α) : (dedup l).Nodup := by
   induction l with
   | nil => simp [dedup]
   | cons y ys ih =>
@@ -26,7 +26,7 @@ theorem nodup_dedup (l : List Int) : (dedup l).Nodup := by
     · rename_i h
       exact List.nodup_cons.mpr ⟨h, ih⟩
 
-theorem dedup_of_nodup (l : List Int) (h : l.Nodup) : dedup l = l := by
+theorem dedup_of_nodup [DecidableEq α] (l : List α) (h : l.Nodup) : dedup l = l := by
   induction l with
   | nil => rfl
   | cons y ys ih =>
@@ -34,5 +34,36 @@ theorem dedup_of_nodup (l : List Int) (h : l.Nodup) : dedup l = l := by
     unfold dedup
     rw [ih hy.2]
     simp [hy.1]
+
+/-- `subBag l R` says exactly that `l` can be completed to a permutation of `R` -/
+theorem subBag_iff (l R : List Int) : subBag l R = true ↔ ∃ rest, (l ++ rest).Perm R := by
+  induction l generalizing R with
+  | nil => simp [subBag]; exact ⟨R, List.Perm.refl _⟩
+  | cons x xs ih =>
+    simp only [subBag, Bool.and_eq_true, List.contains_iff_mem, ih]
+    constructor
+    · rintro ⟨hx, rest, hp⟩
+      exact ⟨rest, (List.Perm.cons x hp).trans (List.perm_cons_erase hx).symm⟩
+    · rintro ⟨rest, hp⟩
+      have hx : x ∈ R := hp.subset (by simp)
+      refine ⟨hx, rest, ?_⟩
+      have := hp.erase x
+      simpa using this
+
+theorem pairwise_of_all_eq {b : α → Int} {v : Int} {c : List α} (h : ∀ x ∈ c, b x = v) :
+    c.Pairwise (fun x y => byKey b x y = true) := by
+  induction c with
+  | nil => exact List.Pairwise.nil
+  | cons y ys ih =>
+    refine List.Pairwise.cons ?_ (ih (fun x hx => h x (List.mem_cons_of_mem _ hx)))
+    intro z hz
+    have h1 := h y (by simp); have h2 := h z (List.mem_cons_of_mem _ hz)
+    simp [byKey, h1, h2]
+
+theorem byKey_trans (k : α → Int) : ∀ a b c : α, byKey k a b = true → byKey k b c = true → byKey k a c = true := by
+  intro a b c; simp [byKey]; omega
+
+theorem byKey_total (k : α → Int) : ∀ a b : α, (byKey k a b || byKey k b a) = true := by
+  intro a b; simp [byKey]; omega
 
 end PonyVerif.Model.Aggr
